@@ -34,6 +34,11 @@ func main() {
 		// limit is a safety net only.
 		debug.SetGCPercent(-1)
 		debug.SetMemoryLimit(3 << 30)
+		if os.Getenv("GOMAXPROCS") == "" {
+			// one task runs at a time; with 16 workers x 16 Ps a forced
+			// collection costs ~8 ms, with 2 Ps ~0.2 ms
+			runtime.GOMAXPROCS(2)
+		}
 	}
 	if len(os.Args) >= 2 && (os.Args[1] == "worker" || os.Args[1] == "refserver") && !raceBuild {
 		// a runaway allocation must kill this worker, not the machine
@@ -476,7 +481,7 @@ type taskLog struct {
 func (e *engine) Run(src *vs.Source, tier string, idx int64) (res *simkit.RunResult) {
 	res = &simkit.RunResult{Stats: map[string]int64{}, Max: map[string]int64{}}
 	var thePool *pool
-	defer runtime.GC() // between runs (automatic collection is off)
+	defer vs.CollectNow() // between runs (automatic collection is off): collect and let finalizers finish
 	defer func() {
 		// The oracle reads operands and results through the library; if one
 		// of them has been corrupted those reads can panic. That is a
@@ -1011,7 +1016,7 @@ func refServer() {
 		}
 		var resp refResp
 		func() {
-			defer runtime.GC()
+			defer vs.CollectNow()
 			defer func() {
 				if r := recover(); r != nil {
 					resp.Err = fmt.Sprint(r)
